@@ -243,7 +243,9 @@ func runC09(c *Ctx) {
 	// across the refill boundaries, into struct destinations: every byte of the member in turn is the
 	// one that needs the next read or the bigger window
 	members := []string{`"B":"xy"`, `"b":"v"`, `"unknownkey":-1.5e3`, `"zz":{"q":[1,2,"]"]}`, `"\u0042":"v"`, `"Aunknown":true`,
-		`"` + strings.Repeat("k", 40) + `":null`, `"C":[1.5,2e1]`, `"X":{"k":"v"}`, `"a\"b":1`}
+		`"` + strings.Repeat("k", 40) + `":null`, `"C":[1.5,2e1]`, `"X":{"k":"v"}`, `"a\"b":1`,
+		// escapes inside values and keys the destination passes over
+		`"zz":"\u00e9\n\"x\\"`, `"zz":{"\u006b\n":["\ud83d\ude00","\\",true]}`, `"unknown\u006bey":"\u0041\/"`, `"X":"\u0041\t\u00e9"`}
 	byName := map[string]c09Dest{}
 	for _, d := range c09Dests {
 		byName[d.name] = d
